@@ -67,6 +67,16 @@ pub fn replay_case<H: HB>(c: &Case) -> Result<(), String> {
             return crate::post::from_iter_differential::<H>(c.double, &c.universe, seq, true).map(|_| ()).map_err(|e| e.1);
         }
     }
+    if c.probe.as_deref() == Some("fault-trail") {
+        return crate::e3::replay_trail::<H>("C10", c);
+    }
+    if c.probe.as_deref() == Some("serde-arbitrary-input") {
+        if let Root::FromVec(seq) = &c.root {
+            let cfg = crate::props::base_cfg("C15", 3, &[0, 1, 2], A_CORE | A_CLEAR_DRAIN);
+            let r = if c.double { crate::c15::arbitrary_input::<DPQ<H>>(seq, &cfg) } else { crate::c15::arbitrary_input::<PQ<H>>(seq, &cfg) };
+            return r.map(|_| ());
+        }
+    }
     let mut q = make_root::<H>(c.double, &c.root, &c.universe)?;
     let mut unordered = false;
     let mut m = model_of(&q.snap());
